@@ -328,6 +328,47 @@ fn line_instruction(e: &Entry) -> Result<String, String> {
     }
 }
 
+/// FULL SDK: running the root file equals running the pasted text — same success / failure, same
+/// variables (handle names apart), same printed trace.  Function definitions, flow control and
+/// labels live in included files here (`fn` reached twice through two includes of one file is an
+/// error in BOTH runs: the second definition is a second definition wherever its text came from).
+fn run_incsdk(req: &str) -> String {
+    let t: Vec<&str> = req.split(' ').collect();
+    let root = dec_str(t[1]).unwrap();
+    let tree = dec_tree(t[2]);
+    let mut entries = vec![];
+    if rs_inline(&tree, &root, 0, &mut entries).is_err() {
+        return "incsdk-unreadable".to_string();
+    }
+    let pasted: String = entries.iter().filter(|e| e.directive.is_none()).map(|e| format!("{}\n", e.text)).collect();
+    let tt = TempTree::new(&tree);
+    let run = |file: Option<String>, text: &str| -> String {
+        let buf = std::rc::Rc::new(std::cell::RefCell::new(Vec::new()));
+        struct Cap(std::rc::Rc<std::cell::RefCell<Vec<u8>>>);
+        impl std::io::Write for Cap {
+            fn write(&mut self, b: &[u8]) -> std::io::Result<usize> { self.0.borrow_mut().extend_from_slice(b); Ok(b.len()) }
+            fn flush(&mut self) -> std::io::Result<()> { Ok(()) }
+        }
+        let halt = crate::sdkenv::guarded_halt(3000);
+        let env = duckscript::types::env::Env::new(Some(Box::new(Cap(buf.clone()))), Some(Box::new(crate::scripted::Sink)), Some(halt.clone()));
+        let ctx = crate::sdkenv::sdk_context();
+        let res = match file { Some(f) => duckscript::runner::run_script_file(&f, ctx, Some(env)), None => duckscript::runner::run_script(text, ctx, Some(env)) };
+        let out = String::from_utf8_lossy(&buf.borrow()).to_string();
+        match res {
+            Ok(c) => {
+                let mut v: Vec<(String, String)> = c.variables.iter().map(|(k, x)| (k.clone(), if x.starts_with("handle:") { "handle".to_string() } else { x.clone() })).collect();
+                v.sort();
+                format!("ok {:?} out={:?} halted={}", v, out, halt.load(std::sync::atomic::Ordering::SeqCst))
+            }
+            // (the text of a failure names positions and files, which differ between the two runs by construction)
+            Err(_) => format!("err out={:?}", out),
+        }
+    };
+    let a = run(Some(tt.real(&root)), "");
+    let b = run(None, &tt.real_text(&pasted));
+    if a == b { "incsdk-same".to_string() } else { format!("incsdk-differs file-run={} pasted-run={}", enc_str(&a), enc_str(&b)) }
+}
+
 /// what the property demands of `parse_file(root)`, in the canonical format
 fn expected_parse(t: &Tree, root: &str) -> String {
     let mut entries = vec![];
@@ -721,6 +762,17 @@ impl Prop for C14Prop {
             vec![("/R/main.ds".into(), ":finish\nc1 first\n!include_files lib.ds\nc2 end\n".into()), ("/R/lib.ds".into(), "c0 lib\n:finish\nc3 x\ngoto :finish\n".into())],
             vec![("/R/main.ds".into(), "!include_files a.ds b.ds\nc2 end\n".into()), ("/R/a.ds".into(), ":dup\nc0 a\n".into()), ("/R/b.ds".into(), "c1 b\ngoto :dup\n:dup\nc3 b2\n".into())],
         ];
+        let sdk_trees: Vec<Tree> = vec![
+            // a library with a function, included once; twice (two directives); a diamond; the function called before / after
+            vec![("/R/main.ds".into(), "!include_files lib.ds\nmarks = set \"\"\nr = greet a\necho ${r} ${marks}\n".into()), ("/R/lib.ds".into(), "fn greet\n    marks = set \"${marks}x\"\n    return hello-${1}\nend\n".into())],
+            vec![("/R/main.ds".into(), "marks = set \"\"\n!include_files common.ds\n!include_files common.ds\necho ${marks}\n".into()), ("/R/common.ds".into(), "fn mark\n    marks = set \"${marks}x\"\nend\nmark\n".into())],
+            vec![("/R/main.ds".into(), "marks = set \"\"\n!include_files a.ds b.ds\necho ${marks}\n".into()), ("/R/a.ds".into(), "!include_files common.ds\necho a\n".into()), ("/R/b.ds".into(), "!include_files common.ds\necho b\n".into()), ("/R/common.ds".into(), "fn mark\n    marks = set \"${marks}x\"\nend\nmark\n".into())],
+            vec![("/R/main.ds".into(), "!include_files sub/loop.ds\necho after ${n}\n".into()), ("/R/sub/loop.ds".into(), "n = set 0\nr = range 0 3\nfor i in ${r}\n    n = calc ${n} + ${i}\nend\nrelease ${r}\n!include_files ../tail.ds\n".into()), ("/R/tail.ds".into(), "if equals ${n} 3\n    echo three\nelse\n    echo other\nend\n".into())],
+            vec![("/R/main.ds".into(), "x = set 1\n!include_files lib.ds lib.ds\necho ${x}\n".into()), ("/R/lib.ds".into(), "x = calc ${x} + 1\n".into())],
+        ];
+        for t in sdk_trees {
+            out.push(Case { req: format!("incsdk {} {}", enc_str("/R/main.ds"), enc_tree(&t)), in_domain: true, nontrivial: true, tags: vec!["fixed", "full-sdk-include-vs-paste"] });
+        }
         for t in trees {
             let q: Vec<String> = (0..6).map(|_| "C/-".to_string()).collect();
             out.push(Case { req: mk_incrun("/R/main.ds", &t, &names, &q, &[], 400), in_domain: true, nontrivial: true, tags: vec!["fixed", "behaviour", "label-in-two-files"] });
@@ -758,6 +810,9 @@ impl Prop for C14Prop {
         }
     }
     fn run_impl(&self, req: &str, _model: &str) -> String {
+        if req.starts_with("incsdk ") {
+            return run_incsdk(req);
+        }
         let r = parse_req(req);
         // Two-phase materialisation (every second case): an EARLIER VERSION of the tree, in which
         // the files that include nothing have other contents, is written and parsed first; then
@@ -794,6 +849,9 @@ impl Prop for C14Prop {
         }
     }
     fn relation(&self, req: &str, _model: &str, imp: &str) -> Option<bool> {
+        if req.starts_with("incsdk ") {
+            return Some(imp == "incsdk-same");
+        }
         let r = parse_req(req);
         if imp == "PANIC" {
             return Some(false);
@@ -813,6 +871,9 @@ impl Prop for C14Prop {
         Some(expected_parse(&r.tree, &r.root) == imp)
     }
     fn shrink(&self, req: &str) -> Vec<String> {
+        if req.starts_with("incsdk ") {
+            return vec![];
+        }
         let r = parse_req(req);
         let mut out = vec![];
         for i in 0..r.tree.len() {
